@@ -36,10 +36,10 @@ class C20(P.Property):
             "(PickledDict) or a sync/close (DBMDict); distinct = digest of (class, op kind, outcome)* sequence")
     real_stub = {"data_persistence.persistent_dict (PickledDict, DBMDict), data_persistence.bytes_shelf, dbm.dumb": "real",
                  "files": "real files in a per-worker scratch directory", "restart": "close() + open(path)", "randomness": "seeded"}
-    assumptions = ["iteration order is not part of the property (compared as sorted lists)",
+    assumptions = ["iteration order is compared exactly for PickledDict (a dict, pickled) and as sorted lists for DBMDict (dbm promises none)",
                    "DBMDict is never opened twice on one path at once (the class blocks on a per-path thread lock by design)"]
     probe_names = ["set_del_set_across_reopen", "clear_then_reopen", "clear_while_closed", "from_dict_aliasing",
-                   "refused_between_syncs", "op_while_closed", "ctx_exit", "create_existing", "open_missing", "dbm_session", "bystander_dict"]
+                   "refused_between_syncs", "op_while_closed", "ctx_exit", "create_existing", "open_missing", "dbm_session", "bystander_dict", "release"]
 
     def setup(self):
         from .. import world
@@ -59,7 +59,7 @@ class C20(P.Property):
                 muts.append([rng.randrange(len(KEYS)), rng.choice(["set", "del"])])
             start = {"how": "from_dict", "src": src, "mutate_src": muts}
         allops = ["set", "set", "setbad", "getitem", "get", "getd", "del", "del", "in", "len", "iter", "clear", "sync", "close",
-                  "reopen", "reopen", "create_existing", "open_missing", "ctx"]
+                  "reopen", "reopen", "create_existing", "open_missing", "ctx", "release"]
         enabled = [o for o in allops if rng.random() < 0.75] or ["set", "reopen", "get"]
         bystander = rng.random() < 0.25  # a second, unrelated dictionary of the same class alive in the same process
         if bystander:
@@ -139,9 +139,14 @@ class C20(P.Property):
         def key(i):
             return KEYS[i] if i < len(KEYS) else b"nokey"
 
+        def order(x):
+            # a dict iterates in insertion order and PickledDict is one (also across close/reopen: pickle keeps the order);
+            # the dbm-backed class promises no order
+            return list(x) if full else sorted(x)
+
         def check_all(si, why):
-            o = outcome(lambda: (len(d), sorted(d), [(k in d) for k in KEYS], [d.get(k) for k in KEYS]))
-            exp = ("ok", (len(model), sorted(model), [(k in model) for k in KEYS], [model.get(k) for k in KEYS]))
+            o = outcome(lambda: (len(d), order(d), [(k in d) for k in KEYS], [d.get(k) for k in KEYS]))
+            exp = ("ok", (len(model), order(model), [(k in model) for k in KEYS], [model.get(k) for k in KEYS]))
             if o != exp:
                 what = o if o[0] == "exc" else [n for n, a, b in zip(("len", "iter", "in", "get"), o[1], exp[1]) if a != b]
                 viol.append(V("C20.state", "MODEL_MISMATCH", f"step {si} ({why}): contents differ from dict model in {what}", step=si))
@@ -171,7 +176,7 @@ class C20(P.Property):
                     if not closed and not check_all(si, "after an operation on a second, unrelated dictionary"):
                         break
                     continue
-                if closed and op not in ("reopen", "ctx", "close", "create_existing", "open_missing"):
+                if closed and op not in ("reopen", "ctx", "close", "create_existing", "open_missing", "release"):
                     probe("op_while_closed")
                     k = key(st.get("k", 0))
                     f = {"set": lambda: d.__setitem__(k, b"v"), "setbad": lambda: d.__setitem__(k, b"v"),
@@ -250,9 +255,9 @@ class C20(P.Property):
                         viol.append(V("C20.read", "MODEL_MISMATCH", f"step {si}: len {o} vs {len(model)}", step=si))
                         break
                 elif op == "iter":
-                    o = outcome(lambda: sorted(d))
+                    o = outcome(lambda: order(d))
                     obs.append((op, o[0]))
-                    if o != ("ok", sorted(model)):
+                    if o != ("ok", order(model)):
                         viol.append(V("C20.read", "MODEL_MISMATCH", f"step {si}: iteration differs", step=si))
                         break
                 elif op == "clear":
@@ -319,6 +324,33 @@ class C20(P.Property):
                         closed = True
                         obs.append(("ctx-exit", "ok"))
                         continue
+                elif op == "release":
+                    # release() closes the dictionary and removes its file: from then on the path is a missing one
+                    if not full:
+                        continue
+                    probe("release")
+                    o = outcome(lambda: d.release())
+                    obs.append((op, o[0]))
+                    if o[0] != "ok":
+                        viol.append(V("C20.close", "MODEL_MISMATCH", f"step {si}: release failed {o}", step=si))
+                        break
+                    closed = True
+                    o = outcome(lambda: cls.open(path))
+                    if o != ("exc", "FileNotFoundError"):
+                        if o[0] == "ok":
+                            o[1].close()
+                        viol.append(V("C20.open", "MODEL_MISMATCH", f"step {si}: open after release gave {o[0]}:{o[1] if o[0] == 'exc' else 'a dictionary'}, expected "
+                                                                f"FileNotFoundError (the dictionary was deleted)", step=si))
+                        break
+                    # a new, empty dictionary can be created at the path again
+                    o = outcome(lambda: cls.create(path))
+                    if o[0] != "ok":
+                        viol.append(V("C20.create", "MODEL_MISMATCH", f"step {si}: create after release failed {o}", step=si))
+                        break
+                    d = o[1]
+                    model.clear()
+                    closed = False
+                    mutated = True
                 elif op == "create_existing":
                     if not full:
                         continue
